@@ -376,7 +376,7 @@ spif_str_append(spif_str_t self, spif_str_t other)
     if (other->size && other->len) {
         self->size += other->size - ((self->size) ? (1) : (0));
         self->s = (spif_charptr_t) REALLOC(self->s, self->size);
-        memcpy(self->s + self->len, SPIF_STR_STR(other), other->len + 1);
+        memmove(self->s + self->len, SPIF_STR_STR(other), other->len + 1);
         self->len += other->len;
     }
     return TRUE;
